@@ -3,6 +3,7 @@ import gen_iostate as G
 from props import sink_common as SC
 from props.base import Part
 
+PROPS_FILES = ["C07", "C07pl"]
 RULE = ("scenarios for the real io::Dispatcher (engine iostate): peer writes (complete frames, undecodable bytes), "
         "gated handler completions with every result code, peer close / read error, local close / terminate, "
         "control-call completion, service readiness changes, timer expiry, control readiness error, gated "
@@ -133,6 +134,115 @@ class IoPart(Part):
         return "1"
 
 
+import gen_plstop as GPS
+
+
+class PlStopPart(Part):
+    """engines plstop3 / plstop5 (42 / 43): the reader of a streamed PUBLISH payload when the connection ends"""
+    has_oracle = False
+    project_is_identity = True
+    SHRINK_FIELDS_FIRST = True
+    SHRINK_FIELDS_ONLY = True
+    NO_SHRINK_FIELDS = (0,)
+
+    @staticmethod
+    def _parse(case, obs):
+        f = case.split(";")
+        cfg = [int(x) for x in f[0].split(",")]
+        if len(cfg) != 4:
+            raise ValueError(case)
+        ops = [[int(x) for x in o.split(",")] if o.strip() else [] for o in f[1:]]
+        steps = [[int(x) for x in o.split(",")] for o in obs.split(";")]
+        if len(steps) != len(ops) or any(len(s) < 4 for s in steps):
+            raise ValueError(obs)
+        return cfg, ops, steps
+
+    def py_oracle(self, case, obs):
+        """read off the observation alone (nothing of the model): 21 the connection task panicked;
+        72 the reader finished Ok (status 2) holding fewer bytes than the PUBLISH announced: a truncated payload
+        reported as complete;  73 the connection has ended, the reader was polled at least twice after that
+        without anything changing, and at the end of the case it is still pending: nothing will ever resolve it;
+        74 more than one Stop notification"""
+        if obs == "9999":
+            return "0,21,0"
+        if obs in ("9998", "9997"):
+            return "1"
+        try:
+            cfg, ops, steps = self._parse(case, obs)
+        except (ValueError, IndexError):
+            return "1"      # a malformed (shrunk) case: no verdict
+        declared = min(cfg[2], 1024)
+        ended_at = None
+        for i, st in enumerate(steps):
+            status, held, stops, is_open = st[:4]
+            if status == 2 and held < declared:
+                return "0,72,%d" % i
+            if stops > 1:
+                return "0,74,%d" % i
+            if ended_at is None and is_open == 0:
+                ended_at = i
+        if ended_at is not None and steps and steps[-1][0] == 1:
+            # trailing polls of the reader after the end that changed nothing
+            k = len(steps) - 1
+            idle = 0
+            while k > ended_at and ops[k] == [7] and steps[k][:2] == steps[k - 1][:2]:
+                idle += 1
+                k -= 1
+            if idle >= 2:
+                return "0,73,%d" % (len(steps) - 1)
+        return "1"
+
+    def nontrivial(self, case, obs):
+        # the connection ended while the reader had not finished, and the reader was polled afterwards
+        if obs in ("9999", "9998", "9997"):
+            return False
+        try:
+            _cfg, ops, steps = self._parse(case, obs)
+        except (ValueError, IndexError):
+            return False
+        for i, st in enumerate(steps):
+            if st[3] == 0:
+                return st[0] < 2 and any(o == [7] for o in ops[i + 1:])
+        return False
+
+    def classify(self, case, obs):
+        if obs in ("9999", "9998", "9997"):
+            return "panic/err"
+        last = obs.split(";")[-1].split(",")
+        return "%s %s" % ({"0": "reader-not-polled", "1": "reader-pending", "2": "reader-ok", "3": "reader-err"}.get(
+            last[0], "other"), "ended" if last[3] == "0" else "open")
+
+    def readable(self, case):
+        return {"config(min_chunk,max_payload_buffer,declared,reader_mode)": case.split(";")[0],
+                "ops": case.split(";")[1:]}
+
+
+PLSTOP_RULE = ("one streamed inbound PUBLISH on a real v3 / v5 server: every operation sequence after the header "
+               "up to the stated length over {more bytes, readiness fails, peer closes, force_close, poll reader, "
+               "handler done} with a payload buffer that is full from the first piece / after one chunk, the same "
+               "with a roomy buffer and PINGREQ, whole sequences incl. sink.close(), plus random sequences to 20 "
+               "operations and random 'payload partly received, optionally readiness fails, the connection ends, "
+               "the reader is polled to the end' schedules; non-trivial = the connection ended before the reader "
+               "finished and the reader was polled afterwards")
+
+PLSTOP_CLAUSES = {
+    "21": "the connection task panicked",
+    "72": "a payload reader finished Ok (Ok(None) / read_all Ok) holding fewer bytes than the PUBLISH announced: "
+          "a truncated payload was reported as complete",
+    "73": "the connection has ended but the payload reader is still pending after repeated polls: nothing will "
+          "ever resolve it",
+    "74": "the control service received more than one Stop notification",
+}
+
+
+def plstop_parts(tier, rng):
+    out = []
+    for name, cases in GPS.all_cases(rng, tier):
+        for eng in ("plstop3", "plstop5"):
+            out.append(PlStopPart("payload-reader-%s-%s" % (eng[-1], name), eng, cases, shards=16, rule=PLSTOP_RULE))
+    return out
+
+
 def parts(tier, rng):
     out = []
     for name, rule, cases in G.iostate_cases(rng, tier):
@@ -144,10 +254,13 @@ def parts(tier, rng):
         p.rule = ("random sink schedules, optionally an acknowledgement that wakes a parked sender, then close / "
                   "force_close / a mismatching acknowledgement, then poll rounds of every task")
         out.append(p)
+    out += plstop_parts(tier, rng)
     return out
 
 
 def replay_parts(rp):
+    if rp.get("engine", "").startswith("plstop"):
+        return [PlStopPart("replay", rp["engine"], [rp["case"]], shards=1)]
     if rp.get("engine", "").startswith("sink"):
         return SC.replay_parts(rp, {7})
     return [IoPart("replay", rp.get("engine", "iostate"), [rp["case"]], shards=1)]
@@ -155,7 +268,7 @@ def replay_parts(rp):
 
 def known_signature(part, case, impl_obs, oracle):
     """recorded deviations of the current tree (see known_findings.json); anything else is None"""
-    if isinstance(part, SC.SinkPart):
+    if isinstance(part, (SC.SinkPart, PlStopPart)):
         return None
     f = oracle.split(",")
     if len(f) < 3 or f[0] != "0":
@@ -187,6 +300,10 @@ CLAUSES = {
 
 
 def clause_text(part, oracle):
+    if isinstance(part, PlStopPart):
+        f = oracle.split(",")
+        return "%s (operation %s)" % (PLSTOP_CLAUSES.get(f[1] if len(f) > 1 else "", "property violated"),
+                                      f[2] if len(f) > 2 else "?")
     if isinstance(part, SC.SinkPart):
         return SC.clause_text(part, oracle)
     f = oracle.split(";")[0].split(",")
